@@ -3,7 +3,7 @@
    store : name -> list of versions (content bytes, source file name); current(name) = last version.
 
  scope  every operation sequence of length <= 4 (thorough <= 5) over
-        {add(name in 2, source file in 2, content in 3), mutate(source file), remove(name), new instance}
+        {add(name in 2, source file in 2 -- one.csv and two, the second without an extension --, content in 3), mutate(source file), remove(name), new instance}
  clause after every step: get_named_file(name) names a file whose bytes are the current content and whose name is sha256(bytes)+ext;
         the manifest gained exactly one entry (carrying that fingerprint) iff the registration changed the current version (bytes or source file name);
         every version ever registered is still on disk, unmodified; a fresh instance sees the same state.
@@ -15,7 +15,7 @@ import mlib
 
 CONTENTS = [b"a,b\n1,2\n", b"a,b\n3,4\n", b"x\n"]
 NAMES = ["n1", "n2"]
-SOURCES = ["src/one.csv", "src/two.csv"]
+SOURCES = ["src/one.csv", "src/two"]          # the second source file has no extension
 
 
 def sha(b_):
@@ -113,8 +113,9 @@ def main():
                 if data != content:
                     b.fail("current_version_is_the_latest_registered_content", where, f"bytes of get_named_file({name})", data[:40], content[:40])
                 base = os.path.basename(got)
-                if base.split(".")[0] != sha(data):
-                    b.fail("file_name_is_the_sha256_of_its_bytes", where, "file name", base, sha(data) + ".csv")
+                ext = os.path.splitext(_src)[1]
+                if base != sha(data) + ext:
+                    b.fail("file_name_is_the_sha256_of_its_bytes", where, "file name", base, sha(data) + ext)
                 ever[got] = content
             for p_, content in ever.items():
                 if not os.path.exists(p_):
